@@ -6,7 +6,9 @@ mod api;
 mod common;
 mod gen;
 mod ops;
+mod replay;
 mod scen_api;
+mod scen_file;
 mod taut;
 
 use common::*;
@@ -22,6 +24,13 @@ fn main() {
     quiet_panics();
     match args.pos[0].as_str() {
         "record" => record(&args),
+        "replay-files" => {
+            let mut s = api::Sess::new(&args.get("out", "trace.ndjson"));
+            replay::files(&mut s, &args.pos[1], args.num("seed", 1));
+            let panics = s.panics;
+            let (n, counts) = s.log.finish();
+            println!("{}", json!({"scenario": "replay-files", "events": n, "counts": counts, "panics": panics}));
+        }
         other => {
             eprintln!("unknown command {}", other);
             std::process::exit(2);
@@ -48,6 +57,18 @@ fn record(args: &Args) {
             }
             let panics = s.panics;
             let (n, counts) = s.log.finish();
+            println!("{}", json!({"scenario": scen, "events": n, "counts": counts, "panics": panics}));
+        }
+        "c08" | "c09" | "c20" | "c10raw" => {
+            let mut log = Log::create(&out);
+            match scen.as_str() {
+                "c08" => scen_file::c08(&mut log, seed, &tier),
+                "c09" => scen_file::c09(&mut log, seed, &tier),
+                "c20" => scen_file::c20(&mut log, seed, &tier),
+                _ => scen_file::c10_raw(&mut log, seed, &tier),
+            }
+            let (n, counts) = log.finish();
+            let panics = counts.get("Panic").cloned().unwrap_or(0);
             println!("{}", json!({"scenario": scen, "events": n, "counts": counts, "panics": panics}));
         }
         other => {
